@@ -237,7 +237,8 @@ Record cfg_wf (c : cfg) : Prop := {
             (xkind x = 0 \/ xkind x = 1) /\ GET <= xcode x <= DELETE /\ 0 <= xtok x < FRESH /\ 0 <= xlen x /\
             (is_upload (xcode x) = false -> xlen x = 0);
   wf_tok : forall x y, In x (cexch c) -> In y (cexch c) -> xtok x = xtok y -> x = y;
-  wf_out : forall x, In x (cexch c) -> zassoc (coutside c) (xtok x) = None
+  wf_out : forall x, In x (cexch c) -> zassoc (coutside c) (xtok x) = None;
+  wf_res : forall r, In r (cres c) -> 0 <= rlen r
 }.
 
 Section System.
@@ -1099,5 +1100,587 @@ Section System.
   Proof.
     intros Hb. apply run_inv; [apply winv_init; intros k; apply bumps_nonneg|exact Hb|].
     intros k. cbn. lia.
+  Qed.
+
+  (* ---------------------------------------------------------------------- *)
+  (* 7. the same in the terms of the specification (Spec.delivery_class)     *)
+  Lemma find_exch_some x by_a : In x (cexch c) -> find_exch c (xtok x) by_a = Some x.
+  Proof.
+    intros Hx. unfold find_exch.
+    assert (Hgen : forall l, (forall y, In y l -> In y (cexch c)) -> In x l ->
+              find (fun y => (xtok y =? xtok x) && (if by_a then xkind y <? 2 else true)) l = Some x).
+    { induction l as [|y l IH]; intros Hsub Hin; [destruct Hin|]. cbn [find].
+      destruct (xtok y =? xtok x) eqn:E.
+      - apply Z.eqb_eq in E. pose proof (same_tok y x (Hsub y (or_introl eq_refl)) Hx E) as ->.
+        destruct (wf_exch c Hwf x Hx) as [Hk _]. destruct by_a; [|reflexivity].
+        replace (xkind x <? 2) with true by (symmetry; apply Z.ltb_lt; lia). reflexivity.
+      - cbn [andb]. destruct Hin as [->|Hin]; [rewrite Z.eqb_refl in E; discriminate|].
+        apply IH; [intros z Hz; apply Hsub; right; exact Hz|exact Hin]. }
+    apply Hgen; auto.
+  Qed.
+
+  Lemma pair_list_refl a b : list_eqb pair_eqb [(a, b)] [(a, b)] = true.
+  Proof. cbn. unfold pair_eqb. cbn. rewrite !Z.eqb_refl. reflexivity. Qed.
+
+  Lemma is_version_ok r n v len sum etag :
+    0 <= v <= Z.of_nat n -> len = rlen r + 3 * v -> sum = csum (res_body r v) -> etag = res_etag r v ->
+    is_version r n len sum etag = true.
+  Proof.
+    intros Hv -> -> ->. induction n as [|n IH]; cbn [is_version].
+    - assert (v = 0) by lia. subst v. cbn [Z.of_nat]. rewrite !Z.eqb_refl.
+      unfold oZ_eqb. destruct (res_etag r 0); [rewrite Z.eqb_refl|]; reflexivity.
+    - destruct (Z.eq_dec v (Z.of_nat (S n))) as [->|Hne].
+      + rewrite !Z.eqb_refl. unfold oZ_eqb. destruct (res_etag r (Z.of_nat (S n))); [rewrite Z.eqb_refl|]; reflexivity.
+      + rewrite IH by lia. apply orb_true_r.
+  Qed.
+
+  Lemma blen_gen_body salt n : blen (gen_body salt n) = Z.of_nat n.
+  Proof. unfold blen. rewrite gen_body_length. reflexivity. Qed.
+
+  (* a body-less request that restarts a block-wise response to a POST/PUT, as observed *)
+  Definition restart_pm (d : pm) : Prop :=
+    plen d = 0 /\ pb1 d = None /\ (exists s mo, pb2 d = Some (s, 0, mo)) /\ is_upload (pcode d) = true.
+
+  Lemma delivB_class es d :
+    delivB_ok (bumps es) d -> delivery_class c es 1 (proj d) = 0%N \/ restart_pm (proj d).
+  Proof.
+    intros [[x [Hx [[Ht [Hc [Ho _]]] Hb]]]|[Hnil Hc]].
+    2: { left. unfold delivery_class, proj. cbn [pcode plen Z.eqb]. rewrite Hc, Hnil. reflexivity. }
+    destruct (wf_exch c Hwf x Hx) as [_ [Hcode [_ [Hlen _]]]].
+    destruct Hb as [Hb|[Hup [Hnil [Hb1 [[b2 [Hb2 Hn]] _]]]]].
+    - left. unfold delivery_class, proj. cbn [pcode plen ptok psum pother Z.eqb].
+      rewrite Hc, Ht, Ho, Hb. unfold is_request.
+      replace ((GET <=? xcode x) && (xcode x <=? DELETE)) with true
+        by (symmetry; apply andb_true_iff; split; apply Z.leb_le; lia).
+      rewrite find_exch_some by exact Hx. unfold req_body. rewrite blen_gen_body, Z2Nat.id by exact Hlen.
+      rewrite !Z.eqb_refl, pair_list_refl. reflexivity.
+    - right. unfold restart_pm, proj. cbn [plen pb1 pb2 pcode proj_blk]. rewrite Hnil, Hb1, Hb2, Hc. cbn [proj_blk].
+      split; [reflexivity|]. split; [reflexivity|]. split; [|exact Hup]. rewrite Hn. eexists. eexists. reflexivity.
+  Qed.
+
+  Lemma delivA_class es d : delivA_ok (bumps es) d -> delivery_class c es 0 (proj d) = 0%N.
+  Proof.
+    intros [[x [r [v [Hx [Hr [[Hv _] [[Ht [Hc [Ho Hob]]] [He Hb]]]]]]]]|[Hnil Hc]].
+    2: { unfold delivery_class, proj. cbn [pcode plen Z.eqb]. rewrite Hnil. destruct Hc as [-> | ->]; reflexivity. }
+    destruct (wf_exch c Hwf x Hx) as [Hk _].
+    unfold delivery_class, proj. cbn [pcode plen ptok psum pother petag pobs Z.eqb].
+    rewrite Hc, Ht, Ho, Hob, He, Hb.
+    assert (Hsucc : is_success_response (resp_code (xcode x)) = true) by (rc_cases (xcode x); reflexivity).
+    rewrite Hsucc. cbn [negb]. rewrite find_exch_some by exact Hx. unfold the_res in Hr. rewrite Hr.
+    assert (Hrl : 0 <= rlen r) by (apply (wf_res c Hwf); eapply nth_error_In; exact Hr).
+    rewrite is_version_ok with (v := v).
+    - cbn [negb]. replace (xkind x =? 2) with false by (symmetry; apply Z.eqb_neq; lia).
+      rewrite Z.eqb_refl, pair_list_refl. reflexivity.
+    - pose proof (bumps_nonneg es (xpath x)). rewrite Z2Nat.id by lia. exact Hv.
+    - unfold res_body. rewrite blen_gen_body. lia.
+    - reflexivity.
+    - reflexivity.
+  Qed.
+
+  (* C04 safety over all fault scripts, in the terms of the specification: on the
+     model's trace of ANY script every delivery has class 0 (exact body, code and
+     options preserved, known token), except the restart request of the finding *)
+  Theorem exchange_safety_spec es :
+    Forall bump_ok es ->
+    Forall (fun o => Forall (fun d => delivery_class c es (o_side o) d = 0%N \/ (o_side o = 1 /\ restart_pm d)) (o_deliv o))
+           (model_obs c es).
+  Proof.
+    intros Hb. pose proof (exchange_safety es Hb) as Hs. unfold model_obs.
+    apply Forall_forall. intros o Ho. apply in_map_iff in Ho. destruct Ho as [mo [<- Hmo]].
+    rewrite Forall_forall in Hs. specialize (Hs mo Hmo).
+    apply Forall_forall. intros d Hd. cbn [proj_mob o_deliv o_side] in *. apply in_map_iff in Hd. destruct Hd as [md [<- Hmd]].
+    destruct Hs as [[Hside Hs]|[[Hside Hs]|Hs]].
+    - rewrite Hside. destruct (delivB_class es md (Hs md Hmd)) as [H0|H1]; [left; exact H0|right; split; [reflexivity|exact H1]].
+    - rewrite Hside. left. apply delivA_class. apply Hs; exact Hmd.
+    - rewrite Hs in Hmd. destruct Hmd.
+  Qed.
+
+  (* no response to a POST/PUT is ever block-wise: every version served during the
+     script is shorter than the smallest block *)
+  Definition small_upload_responses (es : list ev) : Prop :=
+    forall x r v, In x (cexch c) -> is_upload (xcode x) = true -> the_res x = Some r ->
+                  0 <= v <= bumps es (xpath x) -> blen (res_body r v) < 16.
+
+  Lemma delivB_class_exact es V d :
+    delivB_ok V d -> (forall x, In x (cexch c) -> ~ restart_req V x d) -> delivery_class c es 1 (proj d) = 0%N.
+  Proof.
+    intros [[x [Hx [[Ht [Hc [Ho _]]] Hb]]]|[Hnil Hc]] Hno.
+    2: { unfold delivery_class, proj. cbn [pcode plen Z.eqb]. rewrite Hc, Hnil. reflexivity. }
+    destruct (wf_exch c Hwf x Hx) as [_ [Hcode [_ [Hlen _]]]].
+    destruct Hb as [Hb|Hre]; [|exfalso; exact (Hno x Hx Hre)].
+    unfold delivery_class, proj. cbn [pcode plen ptok psum pother Z.eqb].
+    rewrite Hc, Ht, Ho, Hb. unfold is_request.
+    replace ((GET <=? xcode x) && (xcode x <=? DELETE)) with true
+      by (symmetry; apply andb_true_iff; split; apply Z.leb_le; lia).
+    rewrite find_exch_some by exact Hx. unfold req_body. rewrite blen_gen_body, Z2Nat.id by exact Hlen.
+    rewrite !Z.eqb_refl, pair_list_refl. reflexivity.
+  Qed.
+
+  (* ... and when no response to an upload is block-wise, without exception *)
+  Theorem exchange_safety_spec_exact es :
+    Forall bump_ok es -> small_upload_responses es ->
+    Forall (fun o => Forall (fun d => delivery_class c es (o_side o) d = 0%N) (o_deliv o)) (model_obs c es).
+  Proof.
+    intros Hb Hsmall. pose proof (exchange_safety es Hb) as Hs. unfold model_obs.
+    apply Forall_forall. intros o Ho. apply in_map_iff in Ho. destruct Ho as [mo [<- Hmo]].
+    rewrite Forall_forall in Hs. specialize (Hs mo Hmo).
+    apply Forall_forall. intros d Hd. cbn [proj_mob o_deliv o_side] in *. apply in_map_iff in Hd. destruct Hd as [md [<- Hmd]].
+    destruct Hs as [[Hside Hs]|[[Hside Hs]|Hs]].
+    - rewrite Hside. apply (delivB_class_exact es (bumps es) md (Hs md Hmd)).
+      intros x Hx [Hup [_ [_ [_ [r [v [Hr [[Hv _] Hbig]]]]]]]]. specialize (Hsmall x r v Hx Hup Hr Hv). lia.
+    - rewrite Hside. apply delivA_class. apply Hs; exact Hmd.
+    - rewrite Hs in Hmd. destruct Hmd.
+  Qed.
+
+  (* ---------------------------------------------------------------------- *)
+  (* 8. "exactly once": a potential argument                                 *)
+  (* For one endpoint and one token: (bodies handed over) + (1 if a non-empty  *)
+  (* reassembly buffer exists) never grows faster than the number of arrivals *)
+  (* of a first message (no Block option of the direction, or NUM = 0).       *)
+  Definition once_post (e e' : ep) (tk : Z) (first : Prop) (d : list msg) : Prop :=
+    (forall k, k <> tk -> tget (receiving e') k = tget (receiving e) k) /\
+    (forall x, In x d -> mtok x = tk) /\
+    ((d = [] /\ (nonempty_at (receiving e') tk -> first \/ nonempty_at (receiving e) tk)) \/
+     (exists x, d = [x] /\ receiving e' = receiving e /\ first) \/
+     (exists x, d = [x] /\ tget (receiving e') tk = None /\ (first \/ nonempty_at (receiving e) tk))).
+
+  Lemma once_post_recv e e' e'' tk first d :
+    receiving e'' = receiving e' -> once_post e e' tk first d -> once_post e e'' tk first d.
+  Proof. unfold once_post. intros ->. auto. Qed.
+  Lemma once_post_weaken e e' tk (f f' : Prop) d : (f -> f') -> once_post e e' tk f d -> once_post e e' tk f' d.
+  Proof.
+    intros Hf [H1 [H2 H3]]. split; [exact H1|]. split; [exact H2|].
+    destruct H3 as [[Hd Hn]|[[x [Hd [Hr Hff]]]|[x [Hd [Hr Hff]]]]].
+    - left. split; [exact Hd|]. intros Hne. destruct (Hn Hne); auto.
+    - right; left. exists x. auto.
+    - right; right. exists x. split; [exact Hd|]. split; [exact Hr|]. destruct Hff; auto.
+  Qed.
+  Lemma once_post_quiet e tk first : once_post e e tk first [].
+  Proof. split; [reflexivity|]. split; [intros x []|]. left. split; [reflexivity|]. intros Hn; right; exact Hn. Qed.
+
+  Lemma reasm_tok cm r off : mtok (fst (reasm cm r off)) = mtok cm.
+  Proof.
+    unfold reasm. cbn [fst]. destruct (off =? _); cbn [set_body mtok];
+      (destruct (metag r); [|reflexivity]; destruct (metag cm); [|reflexivity]; destruct (z =? z0); reflexivity).
+  Qed.
+  (* a buffer that is non-empty after the step was non-empty before, unless the block is a first one *)
+  Lemma reasm_nonempty cm r num sz :
+    sz <> 0 -> mbody (fst (reasm cm r (num * sz))) <> [] -> num = 0 \/ mbody cm <> [].
+  Proof.
+    intros Hsz. unfold reasm. cbn [fst].
+    set (cm1 := match metag r, metag cm with
+                | Some a, Some c0 => if a =? c0 then cm else set_body (set_etag cm (Some a)) []
+                | _, _ => cm end).
+    assert (H1 : mbody cm1 <> [] -> mbody cm <> []).
+    { unfold cm1. destruct (metag r); [|auto]. destruct (metag cm); [|auto]. destruct (z =? z0); [auto|].
+      cbn [set_body mbody]. intros Hc; contradiction Hc; reflexivity. }
+    destruct (num * sz =? blen (mbody cm1)) eqn:E.
+    - intros _. apply Z.eqb_eq in E. destruct (Z.eq_dec num 0) as [Hz|Hnz]; [left; exact Hz|right].
+      apply H1. intros Hnil. rewrite Hnil in E. cbn in E. nia.
+    - intros Hne. right. apply H1. exact Hne.
+  Qed.
+  Lemma reasm_appended cm r num sz :
+    sz <> 0 -> snd (reasm cm r (num * sz)) = true -> num = 0 \/ mbody cm <> [].
+  Proof.
+    intros Hsz. unfold reasm. cbn [snd].
+    set (cm1 := match metag r, metag cm with
+                | Some a, Some c0 => if a =? c0 then cm else set_body (set_etag cm (Some a)) []
+                | _, _ => cm end).
+    assert (H1 : mbody cm1 <> [] -> mbody cm <> []).
+    { unfold cm1. destruct (metag r); [|auto]. destruct (metag cm); [|auto]. destruct (z =? z0); [auto|].
+      cbn [set_body mbody]. intros Hc; contradiction Hc; reflexivity. }
+    intros E. apply Z.eqb_eq in E. destruct (Z.eq_dec num 0) as [Hz|Hnz]; [left; exact Hz|right].
+    apply H1. intros Hnil. rewrite Hnil in E. cbn in E. nia.
+  Qed.
+
+  Lemma pr_once app e r mx isb1 :
+    is_observe_response r = false -> (mcode r =? GET) || (mcode r =? DELETE) = false ->
+    (forall cm, tget (receiving e) (mtok r) = Some cm -> mtok cm = mtok r) ->
+    let '(e', _, d) := process_received app e r mx isb1 in
+    once_post e e' (mtok r) (first_blk (blockopt isb1 r)) d.
+  Proof.
+    intros Hobs Hgd Hkey.
+    destruct (blockopt isb1 r) as [b|] eqn:Hb.
+    2: { rewrite pr_noblock by assumption.
+         destruct (isb1 && _); [apply once_post_quiet|].
+         split; [reflexivity|]. split; [intros x [<-|[]]; reflexivity|]. right; left. exists r. cbn. auto. }
+    unfold process_received. unfold blockopt in Hb. rewrite Hgd, Hb. unfold observe_key. rewrite Hobs.
+    destruct (if isb1 then false else match get_sent_request e (mtok r) with None => true | Some _ => false end);
+      [apply once_post_quiet|].
+    cbn [negb first_blk].
+    assert (Hgen : forall cm szx0,
+      (tget (receiving e) (mtok r) = Some cm \/ (tget (receiving e) (mtok r) = None /\ mbody cm = [])) -> mtok cm = mtok r ->
+      let '(e', _, d) :=
+        (let '(cm', appended) := reasm cm r (bnum b * size szx0) in
+         let e2 := with_receiving e (tput (receiving e) (mtok r) cm') in
+         if appended && negb (bmore b) then
+           let full := set_block isb1 cm' None None in
+           let e3 := with_receiving e2 (tdel (receiving e2) (mtok r)) in
+           let e4 := if mtok cm' =? mtok r then e3 else with_sending e3 (tdel (sending e3) (mtok r)) in
+           (e4, Out (app (mtok r) full), [full])
+         else
+           let szx := Z.min szx0 mx in
+           let psize := blen (mbody cm') in
+           let sm :=
+             if isb1 then
+               {| mcode := Continue; mtok := mtok r; mb1 := Some {| bszx := szx; bnum := bnum b; bmore := bmore b |};
+                  mb2 := None; ms1 := None; ms2 := None; metag := None; mobs := None; mother := []; mbody := [] |}
+             else match get_sent_request e (mtok r) with
+                  | Some sr =>
+                    {| mcode := mcode sr; mtok := mtok r; mb1 := None;
+                       mb2 := Some {| bszx := szx; bnum := psize / size szx; bmore := bmore b |};
+                       ms1 := None; ms2 := ms2 sr; metag := metag sr; mobs := None; mother := mother sr; mbody := [] |}
+                  | None => entity_incomplete (mtok r)
+                  end in
+           (e2, Out (Some sm), [])) in
+      once_post e e' (mtok r) (bnum b = 0) d).
+    { intros cm szx0 Hwhere Htk.
+      pose proof (reasm_tok cm r (bnum b * size szx0)) as Htok.
+      pose proof (reasm_nonempty cm r (bnum b) (size szx0) (size_nonzero szx0)) as Hne.
+      pose proof (reasm_appended cm r (bnum b) (size szx0) (size_nonzero szx0)) as Hap.
+      destruct (reasm cm r (bnum b * size szx0)) as [cm' appended]. cbn [fst snd] in *.
+      assert (Hbefore : mbody cm <> [] -> nonempty_at (receiving e) (mtok r)).
+      { intros Hn. destruct Hwhere as [Hw|[_ Hw]]; [exists cm; auto|contradiction]. }
+      destruct (appended && negb (bmore b)) eqn:Hfinal.
+      - apply andb_true_iff in Hfinal. destruct Hfinal as [Ha _]. subst appended.
+        assert (Hrecv : forall k, k <> mtok r -> tget (tdel (tput (receiving e) (mtok r) cm') (mtok r)) k = tget (receiving e) k)
+          by (intros k Hk; rewrite tget_tdel_other by congruence; apply tget_tput_other; congruence).
+        split; [destruct (mtok cm' =? mtok r); cbn [receiving with_receiving with_sending]; exact Hrecv|].
+        split; [intros x [<-|[]]; cbn [set_block mtok]; congruence|].
+        right; right. eexists. split; [reflexivity|].
+        split; [destruct (mtok cm' =? mtok r); cbn [receiving with_receiving with_sending]; apply tget_tdel_same|].
+        destruct (Hap eq_refl) as [Hz|Hn]; [left; exact Hz|right; apply Hbefore; exact Hn].
+      - cbn [receiving with_receiving].
+        split; [intros k Hk; apply tget_tput_other; congruence|]. split; [intros x []|].
+        left. split; [reflexivity|]. intros [c0 [Hc0 Hn0]]. cbn [receiving with_receiving] in Hc0. rewrite tget_tput_same in Hc0. injection Hc0 as <-.
+        destruct (Hne Hn0) as [Hz|Hn]; [left; exact Hz|right; apply Hbefore; exact Hn]. }
+    destruct (tget (receiving e) (mtok r)) as [c0|] eqn:Hc.
+    - destruct (bmore b); apply (Hgen c0 (bszx b)); auto.
+    - destruct (bmore b) eqn:Hm.
+      + apply (Hgen (set_body r []) (Z.min (bszx b) mx)); [right; split; reflexivity|reflexivity].
+      + destruct (bnum b =? 0) eqn:Hz; cbn [negb]; [|apply once_post_quiet].
+        apply Z.eqb_eq in Hz.
+        split; [reflexivity|]. split; [intros x [<-|[]]; reflexivity|]. right; left. exists r. auto.
+  Qed.
+
+  (* the relevant Block option of a message, by its code *)
+  Definition fb (r : msg) : Prop := is_plain_code (mcode r) = true \/ first_blk (blockopt (is_upload (mcode r)) r).
+
+  Lemma handle_once_pot app e r :
+    is_observe_response r = false ->
+    (forall cm, tget (receiving e) (mtok r) = Some cm -> mtok cm = mtok r) ->
+    let '(e', _, d, _) := handle app e r in once_post e e' (mtok r) (fb r) d.
+  Proof.
+    intros Hobs Hkey. unfold handle.
+    assert (Hrecv : let '(e', _, d, _) :=
+              (let '(e', o, d) := handle_received app e r in
+               match o with Out w => (e', w, d, 0) | Fail => (e', Some (entity_incomplete (mtok r)), d, 1) end) in
+              once_post e e' (mtok r) (fb r) d).
+    { assert (Hhr : let '(e', _, d) := handle_received app e r in once_post e e' (mtok r) (fb r) d).
+      { assert (Hf1 : (mcode r =? 0) || ((225 <=? mcode r) && (mcode r <=? 229)) = true -> fb r).
+        { intros Hs. left. unfold is_plain_code. rewrite Hs. reflexivity. }
+        assert (Hf2 : (mcode r =? GET) || (mcode r =? DELETE) = true -> fb r).
+        { intros Hs. left. unfold is_plain_code. rewrite <- orb_assoc, Hs. apply orb_true_r. }
+        assert (Hf3 : first_blk (blockopt (is_upload (mcode r)) r) -> fb r) by (intros Hs; right; exact Hs).
+        revert Hf1 Hf2 Hf3. generalize (fb r). intros F Hf1 Hf2 Hf3.
+        unfold handle_received.
+        destruct ((mcode r =? 0) || ((225 <=? mcode r) && (mcode r <=? 229))) eqn:Hsig.
+        { split; [reflexivity|]. split; [intros x [<-|[]]; reflexivity|]. right; left. exists r. auto. }
+        destruct ((mcode r =? GET) || (mcode r =? DELETE)) eqn:Hgd.
+        { match goal with |- context [start_sending ?a ?b ?c ?d ?f] =>
+            pose proof (start_sending_receiving a b c d f) as Hr'; destruct (start_sending a b c d f) as [e' o] end.
+          cbn [fst] in Hr'. split; [intros k _; rewrite Hr'; reflexivity|]. split; [intros x [<-|[]]; reflexivity|].
+          right; left. exists r. split; [reflexivity|]. split; [exact Hr'|]. auto. }
+        pose proof (pr_once app e r (fit (if is_upload (mcode r) then mb1 r else mb2 r) (eszx e)) (is_upload (mcode r)) Hobs Hgd Hkey) as Hp.
+        destruct (process_received app e r _ (is_upload (mcode r))) as [[e1 o] d].
+        apply (once_post_weaken _ _ _ _ F) in Hp; [|exact Hf3].
+        destruct o as [w|]; [|exact Hp].
+        match goal with |- context [start_sending ?a ?b ?c ?d ?f] =>
+          pose proof (start_sending_receiving a b c d f) as Hr'; destruct (start_sending a b c d f) as [e2 o2] end.
+        cbn [fst] in Hr'. eapply once_post_recv; [exact Hr'|exact Hp]. }
+      destruct (handle_received app e r) as [[e1 o] d]. destruct o; exact Hhr. }
+    destruct (tget (sending e) (mtok r)) as [orig|]; [|exact Hrecv].
+    destruct (wants_to_be_received r); [exact Hrecv|].
+    pose proof (continue_sending_receiving e r orig) as Hcr.
+    destruct (continue_sending e r orig) as [[e2 w] err]. cbn [fst] in Hcr.
+    eapply once_post_recv; [exact Hcr|apply once_post_quiet].
+  Qed.
+
+  (* counting, as the specification does (Spec.arrivals / Spec.handed), one observation at a time *)
+  Definition arr1 (o : obs) (side tok : Z) : Z :=
+    match o_in o with
+    | Some m => if (o_side o =? side) && (ptok m =? tok) && is_first side m then 1 else 0
+    | None => 0
+    end.
+  Definition hand1 (o : obs) (side tok : Z) : Z :=
+    if o_side o =? side then blen (filter (fun d => (ptok d =? tok) && (0 <? plen d)) (o_deliv o)) else 0.
+
+  Lemma arrivals_acc os side tok a :
+    fold_left (fun n o => match o_in o with
+                          | Some m => if (o_side o =? side) && (ptok m =? tok) && is_first side m then n + 1 else n
+                          | None => n end) os a = a + arrivals os side tok.
+  Proof.
+    unfold arrivals. revert a. induction os as [|o os IH]; intros a; cbn [fold_left]; [lia|].
+    rewrite IH. rewrite (IH (match o_in o with Some m => if (o_side o =? side) && (ptok m =? tok) && is_first side m then 0 + 1 else 0 | None => 0 end)).
+    destruct (o_in o) as [m|]; [|lia]. destruct ((o_side o =? side) && (ptok m =? tok) && is_first side m); lia.
+  Qed.
+  Lemma arrivals_cons o os side tok : arrivals (o :: os) side tok = arr1 o side tok + arrivals os side tok.
+  Proof.
+    unfold arrivals at 1. cbn [fold_left]. rewrite arrivals_acc. unfold arr1.
+    destruct (o_in o) as [m|]; [|lia]. destruct ((o_side o =? side) && (ptok m =? tok) && is_first side m); lia.
+  Qed.
+  Lemma handed_acc os side tok a :
+    fold_left (fun n o => if o_side o =? side
+                          then n + blen (filter (fun d => (ptok d =? tok) && (0 <? plen d)) (o_deliv o)) else n) os a
+    = a + handed os side tok.
+  Proof.
+    unfold handed. revert a. induction os as [|o os IH]; intros a; cbn [fold_left]; [lia|].
+    rewrite IH. rewrite (IH (if o_side o =? side then 0 + blen (filter (fun d => (ptok d =? tok) && (0 <? plen d)) (o_deliv o)) else 0)). destruct (o_side o =? side); lia.
+  Qed.
+  Lemma handed_cons o os side tok : handed (o :: os) side tok = hand1 o side tok + handed os side tok.
+  Proof. unfold handed at 1. cbn [fold_left]. rewrite handed_acc. unfold hand1. destruct (o_side o =? side); lia. Qed.
+
+  (* the potential: 1 iff the endpoint of that side holds a non-empty buffer for the token *)
+  Definition potE (e : ep) (t : Z) : Z :=
+    match tget (receiving e) t with Some cm => match mbody cm with [] => 0 | _ => 1 end | None => 0 end.
+  Definition pot (w : world) (side t : Z) : Z :=
+    if side =? 1 then potE (wb w) t else if side =? 0 then potE (wa w) t else 0.
+
+  Lemma potE_range e t : 0 <= potE e t <= 1.
+  Proof. unfold potE. destruct (tget (receiving e) t) as [cm|]; [destruct (mbody cm)|]; lia. Qed.
+  Lemma potE_nonempty e t : potE e t = 1 <-> nonempty_at (receiving e) t.
+  Proof.
+    unfold potE, nonempty_at. split.
+    - destruct (tget (receiving e) t) as [cm|]; [|discriminate]. destruct (mbody cm) eqn:E; [discriminate|].
+      intros _. exists cm. split; [reflexivity|]. rewrite E. discriminate.
+    - intros [cm [-> Hne]]. destruct (mbody cm); [contradiction Hne; reflexivity|reflexivity].
+  Qed.
+  Lemma potE_recv e e' t : tget (receiving e') t = tget (receiving e) t -> potE e' t = potE e t.
+  Proof. unfold potE. intros ->. reflexivity. Qed.
+
+  Definition firstb (side : Z) (m : msg) : bool :=
+    match (if side =? 1 then mb1 m else mb2 m) with None => true | Some b => bnum b =? 0 end.
+  Lemma is_first_proj side m : is_first side (proj m) = firstb side m.
+  Proof.
+    unfold is_first, relevant_block, firstb, proj. cbn [pb1 pb2].
+    destruct (side =? 1); [destruct (mb1 m)|destruct (mb2 m)]; reflexivity.
+  Qed.
+
+  Lemma okA_nonobs V m : okA V m -> is_observe_response m = false.
+  Proof.
+    intros [Hm|[_ [_ [Ho _]]]]; [eapply resp_not_observe; exact Hm|]. unfold is_observe_response. rewrite Ho. reflexivity.
+  Qed.
+  Lemma okB_nonobs V m : okB V m -> is_observe_response m = false.
+  Proof.
+    unfold is_observe_response. intros [[x [_ [[_ [_ [_ Ho]]] _]]]|[[_ [_ [Ho _]]] _]]; rewrite Ho; reflexivity.
+  Qed.
+  Lemma okA_first V m : okA V m -> fb m -> firstb 0 m = true.
+  Proof.
+    unfold firstb. cbn [Z.eqb]. intros [[x [r [v [_ [_ [_ [[_ [Hc _]] _]]]]]]]|[_ [Hb2 _]]] Hfb; [|rewrite Hb2; reflexivity].
+    destruct Hfb as [Hp|Hf].
+    - exfalso. rewrite Hc in Hp. revert Hp. rc_cases (xcode x); discriminate.
+    - rewrite Hc, resp_not_upload in Hf. unfold blockopt in Hf. destruct (mb2 m); [apply Z.eqb_eq; exact Hf|reflexivity].
+  Qed.
+  Lemma okB_first V m : okB V m -> fb m -> firstb 1 m = true.
+  Proof.
+    unfold firstb. cbn [Z.eqb]. intros [[x [Hx [[_ [Hc _]] [_ [_ Hb1]]]]]|[[_ [_ [_ Hcode]]] Hinc]] Hfb.
+    2: { destruct Hcode as [[Hc _]|[_ Hn]]; [rewrite Hc in Hinc; discriminate Hinc|rewrite Hn; reflexivity]. }
+    destruct (mb1 m) as [b|] eqn:Eb; [|reflexivity]. destruct Hb1 as [Hup _].
+    destruct Hfb as [Hp|Hf].
+    - exfalso. rewrite Hc in Hp. destruct (code_cases x Hx) as [Hcx|[Hcx|[Hcx|Hcx]]]; rewrite Hcx in *; discriminate.
+    - rewrite Hc, Hup in Hf. unfold blockopt in Hf. rewrite Eb in Hf. apply Z.eqb_eq. exact Hf.
+  Qed.
+
+  Lemma complete_receiving p d e : receiving (snd (fst (complete p d e))) = receiving e.
+  Proof.
+    revert e. induction p as [|[i t] p IH]; intros e; cbn [complete]; [reflexivity|].
+    destruct (existsb (fun m => mtok m =? t) d).
+    - specialize (IH (with_sending e (tdel (sending e) t))).
+      destruct (complete p d (with_sending e (tdel (sending e) t))) as [[p' e'] rets]. exact IH.
+    - specialize (IH e). destruct (complete p d e) as [[p' e'] rets]. exact IH.
+  Qed.
+
+  Lemma filter_tok_len (d : list msg) tk t :
+    (forall x, In x d -> mtok x = tk) -> (length d <= 1)%nat ->
+    0 <= blen (filter (fun x => (ptok x =? t) && (0 <? plen x)) (map proj d)) <= (if t =? tk then Z.of_nat (length d) else 0).
+  Proof.
+    intros Htok Hlen. destruct d as [|x [|y d]]; [cbn; destruct (t =? tk); lia| |cbn in Hlen; lia].
+    cbn [map filter]. replace (ptok (proj x)) with (mtok x) by reflexivity. rewrite (Htok x (or_introl eq_refl)).
+    rewrite (Z.eqb_sym tk t). destruct (t =? tk); cbn [andb]; [destruct (0 <? plen (proj x)); cbn; lia|cbn; lia].
+  Qed.
+
+  (* the step inequality, for the endpoint that handles a message *)
+  Lemma once_post_count e e' tk (first : bool) d t :
+    once_post e e' tk (first = true) d ->
+    blen (filter (fun x => (ptok x =? t) && (0 <? plen x)) (map proj d)) + potE e' t
+    <= (if (tk =? t) && first then 1 else 0) + potE e t.
+  Proof.
+    intros [Hframe [Htok Hcases]].
+    assert (Hlen : (length d <= 1)%nat).
+    { destruct Hcases as [[-> _]|[[x [-> _]]|[x [-> _]]]]; cbn; lia. }
+    pose proof (filter_tok_len d tk t Htok Hlen) as Hf.
+    destruct (Z.eq_dec t tk) as [->|Hne].
+    - rewrite Z.eqb_refl in *. cbn [andb].
+      pose proof (potE_range e tk). pose proof (potE_range e' tk).
+      destruct Hcases as [[-> Hn]|[[x [-> [Hr Hfi]]]|[x [-> [Hr Hfi]]]]].
+      + cbn [length] in Hf. destruct (Z.eq_dec (potE e' tk) 1) as [H1|H1]; [|destruct first; lia].
+        apply potE_nonempty in H1. destruct (Hn H1) as [->|Hb]; [lia|]. apply potE_nonempty in Hb. destruct first; lia.
+      + rewrite Hfi. cbn [length] in Hf. rewrite (potE_recv e e' tk) by (rewrite Hr; reflexivity). lia.
+      + cbn [length] in Hf. assert (potE e' tk = 0) by (unfold potE; rewrite Hr; reflexivity).
+        destruct Hfi as [->|Hb]; [lia|]. apply potE_nonempty in Hb. destruct first; lia.
+    - replace (t =? tk) with false in Hf by (symmetry; apply Z.eqb_neq; exact Hne).
+      replace (tk =? t) with false by (symmetry; apply Z.eqb_neq; congruence). cbn [andb].
+      rewrite (potE_recv e e' t) by (apply Hframe; exact Hne). lia.
+  Qed.
+
+  Lemma emit_wa w toB o : wa (emit w toB o) = wa w. Proof. destruct o; reflexivity. Qed.
+  Lemma emit_wb w toB o : wb (emit w toB o) = wb w. Proof. destruct o; reflexivity. Qed.
+
+  Lemma recvA_key V t k cm : recvA V t -> tget t k = Some cm -> mtok cm = k.
+  Proof. intros Hr Hg. destruct (Hr _ _ Hg) as [x [r [_ [Hk [_ [_ [_ [[Ht _] _]]]]]]]]. congruence. Qed.
+  Lemma recvB_key t k cm : recvB t -> tget t k = Some cm -> mtok cm = k.
+  Proof. intros Hr Hg. destruct (Hr _ _ Hg) as [x [_ [Hk [_ [_ [_ [[Ht _] _]]]]]]]. congruence. Qed.
+
+  Definition step_ineq (w w1 : world) (o : mob) : Prop :=
+    forall side t, hand1 (proj_mob o) side t + pot w1 side t <= arr1 (proj_mob o) side t + pot w side t.
+
+  Lemma silent_ineq w w1 o :
+    mo_in o = None -> mo_deliv o = [] ->
+    (forall t, potE (wa w1) t <= potE (wa w) t) -> (forall t, potE (wb w1) t <= potE (wb w) t) -> step_ineq w w1 o.
+  Proof.
+    intros Hin Hd Ha Hb side t. unfold hand1, arr1, proj_mob. cbn [o_in o_deliv o_side]. rewrite Hin, Hd. cbn [option_map map filter].
+    replace (blen (@nil pm)) with 0 by reflexivity. unfold pot.
+    destruct (mo_side o =? side); destruct (side =? 1); try (specialize (Hb t); lia); destruct (side =? 0); try (specialize (Ha t); lia); lia.
+  Qed.
+
+  Lemma arrive_once N w toB m :
+    winv N w -> (if toB : bool then okB (Vof w) m else okA (Vof w) m) ->
+    let '(w1, o) := arrive c w toB m in step_ineq w w1 o.
+  Proof.
+    intros (Ha & Hb & _) Hm. unfold arrive. destruct toB.
+    - pose proof (handle_once_pot (app_b c (vers w)) (wb w) m (okB_nonobs _ _ Hm)) as Hh.
+      destruct (handle (app_b c (vers w)) (wb w) m) as [[[e' o] d] nerr].
+      assert (Hpost : once_post (wb w) e' (mtok m) (firstb 1 m = true) d).
+      { eapply once_post_weaken; [apply (okB_first _ _ Hm)|]. apply Hh.
+        intros cm Hg. destruct Hb as [_ [_ [_ Hr]]]. eapply recvB_key; eassumption. }
+      intros side t. unfold hand1, arr1, proj_mob, pot. cbn [o_in o_deliv o_side mo_side mo_in mo_deliv option_map].
+      rewrite emit_wa, emit_wb. cbn [wa wb with_b]. rewrite is_first_proj. replace (ptok (proj m)) with (mtok m) by reflexivity.
+      destruct (Z.eq_dec side 1) as [->|Hne].
+      + cbn [Z.eqb andb]. apply once_post_count. exact Hpost.
+      + replace (1 =? side) with false by (symmetry; apply Z.eqb_neq; congruence).
+        replace (side =? 1) with false by (symmetry; apply Z.eqb_neq; congruence). cbn [andb]. lia.
+    - pose proof (handle_once_pot app_a (wa w) m (okA_nonobs _ _ Hm)) as Hh.
+      destruct (handle app_a (wa w) m) as [[[e' o] d] nerr].
+      pose proof (complete_receiving (pending w) d e') as Hcr.
+      destruct (complete (pending w) d e') as [[p' e''] rets]. cbn [fst snd] in Hcr.
+      assert (Hpost : once_post (wa w) e'' (mtok m) (firstb 0 m = true) d).
+      { eapply once_post_recv; [exact Hcr|]. eapply once_post_weaken; [apply (okA_first _ _ Hm)|]. apply Hh.
+        intros cm Hg. destruct Ha as [_ [_ [_ [_ Hr]]]]. eapply recvA_key; eassumption. }
+      intros side t. unfold hand1, arr1, proj_mob, pot. cbn [o_in o_deliv o_side mo_side mo_in mo_deliv option_map].
+      rewrite emit_wa, emit_wb. cbn [wa wb with_a with_pending]. rewrite is_first_proj. replace (ptok (proj m)) with (mtok m) by reflexivity.
+      destruct (Z.eq_dec side 0) as [->|Hne].
+      + cbn [Z.eqb andb]. apply once_post_count. exact Hpost.
+      + replace (0 =? side) with false by (symmetry; apply Z.eqb_neq; congruence).
+        replace (side =? 0) with false by (symmetry; apply Z.eqb_neq; congruence). cbn [andb]. destruct (side =? 1); lia.
+  Qed.
+
+  Lemma do_start_receiving e r : receiving (fst (do_start e r)) = receiving e.
+  Proof.
+    unfold do_start. destruct (tget (sending e) (mtok r)); [reflexivity|].
+    destruct (blen (mbody r) <=? size (eszx e)); [reflexivity|]. destruct (negb (is_upload (mcode r))); reflexivity.
+  Qed.
+
+  Lemma step_once N w e :
+    winv N w -> let '(w', o) := step c w e in step_ineq w w' o.
+  Proof.
+    intros Hinv. pose proof Hinv as (Ha & Hb & Hw & Hf & _).
+    assert (Hquiet : forall w0, (forall t, potE (wa w0) t <= potE (wa w) t) -> (forall t, potE (wb w0) t <= potE (wb w) t) ->
+                     let '(w', o) := quiet w0 in step_ineq w w' o).
+    { intros w0 H1 H2. apply silent_ineq; auto. }
+    assert (Hstarted : forall w1 toB o rets, (forall t, potE (wa w1) t <= potE (wa w) t) -> (forall t, potE (wb w1) t <= potE (wb w) t) ->
+                       let '(w', ob) := started w1 toB o rets in step_ineq w w' ob).
+    { intros w1 toB o rets H1 H2. apply silent_ineq; try reflexivity; rewrite ?emit_wa, ?emit_wb; assumption. }
+    assert (Hrefl : forall e0 t, potE e0 t <= potE e0 t) by (intros; lia).
+    destruct e as [i|j|j|j|h|k|i|atB]; cbn [step].
+    - destruct (nth_error (cexch c) i) as [x|] eqn:Hx; [|apply Hquiet; intros; lia].
+      destruct (xkind x =? 0).
+      + pose proof (do_start_receiving (wa w) (request_of x)) as Hr.
+        destruct (do_start (wa w) (request_of x)) as [e' o]. cbn [fst] in Hr.
+        destruct o as [m|]; apply Hstarted; cbn [wa wb with_a with_pending]; intros t; try lia;
+          rewrite (potE_recv (wa w) e' t) by (rewrite Hr; reflexivity); lia.
+      + destruct (xkind x =? 1).
+        * unfold write_start.
+          match goal with |- context [start_sending ?a ?b ?c0 ?d ?f] =>
+            pose proof (start_sending_receiving a b c0 d f) as Hr; destruct (start_sending a b c0 d f) as [e' o] end.
+          cbn [fst] in Hr.
+          destruct o as [m|]; apply Hstarted; cbn [wa wb with_a]; intros t; try lia;
+            rewrite (potE_recv (wa w) e' t) by (rewrite Hr; reflexivity); lia.
+        * unfold write_start.
+          match goal with |- context [start_sending ?a ?b ?c0 ?d ?f] =>
+            pose proof (start_sending_receiving a b c0 d f) as Hr; destruct (start_sending a b c0 d f) as [e' o] end.
+          cbn [fst] in Hr.
+          destruct o as [m|]; apply Hstarted; cbn [wa wb with_b]; intros t; try lia;
+            rewrite (potE_recv (wb w) e' t) by (rewrite Hr; reflexivity); lia.
+    - destruct (nth_error (flight w) j) as [[toB m]|] eqn:Hj; [|apply Hquiet; intros; lia].
+      apply nth_error_In in Hj.
+      pose proof (arrive_once N (with_flight w (remove_nth j (flight w))) toB m) as Har.
+      destruct (arrive c (with_flight w (remove_nth j (flight w))) toB m) as [w1 o].
+      apply Har; [|exact (Hw _ _ (Hf _ Hj))].
+      apply winv_flight; [exact Hinv|]. intros x Hx. eapply remove_nth_In; exact Hx.
+    - destruct (nth_error (flight w) j) as [[toB m]|] eqn:Hj; [|apply Hquiet; intros; lia].
+      apply nth_error_In in Hj. apply (arrive_once N); [exact Hinv|exact (Hw _ _ (Hf _ Hj))].
+    - apply Hquiet; intros; cbn [wa wb with_flight]; lia.
+    - destruct (nth_error (whist w) h) as [[toB m]|] eqn:Hh; [|apply Hquiet; intros; lia].
+      apply nth_error_In in Hh. apply (arrive_once N); [exact Hinv|exact (Hw _ _ Hh)].
+    - apply Hquiet; intros; cbn [wa wb with_vers]; lia.
+    - destruct (find (fun p => Nat.eqb (fst p) i) (pending w)) as [[i' t]|]; [|apply Hquiet; intros; lia].
+      apply silent_ineq; try reflexivity; intros t0; cbn [wa wb with_a with_pending]; try lia;
+        try (unfold potE; cbn [receiving with_sending]; lia).
+    - destruct atB; apply Hquiet; intros t; cbn [wa wb with_a with_b]; try lia;
+        (unfold potE at 1; cbn [receiving with_receiving with_sending tget]; apply potE_range).
+  Qed.
+
+  Lemma run_once N : forall es w,
+    winv N w -> Forall bump_ok es -> (forall k, ver (vers w) k + bumps es k <= N k) ->
+    forall side t, handed (map proj_mob (run c w es)) side t <= arrivals (map proj_mob (run c w es)) side t + pot w side t.
+  Proof.
+    induction es as [|e es IH]; intros w Hinv Hb HN side t; cbn [run map].
+    { unfold handed, arrivals, pot. cbn [fold_left].
+      pose proof (potE_range (wa w) t). pose proof (potE_range (wb w) t). destruct (side =? 1); [lia|]. destruct (side =? 0); lia. }
+    inversion Hb as [|? ? Hbe Hbes]; subst.
+    pose proof (step_inv N w e Hinv Hbe) as Hst. pose proof (step_vers w e) as Hve. pose proof (step_once N w e Hinv) as Hso.
+    destruct (step c w e) as [w' o]. cbn [fst] in Hve. cbn [map].
+    destruct Hst as [Hinv' _].
+    { intros k ->. specialize (HN k). rewrite bumps_cons in HN. cbn [bump_count] in HN. rewrite Z.eqb_refl in HN.
+      pose proof (bumps_nonneg es k). lia. }
+    rewrite handed_cons, arrivals_cons.
+    assert (HN' : forall k, ver (vers w') k + bumps es k <= N k).
+    { intros k. specialize (HN k). rewrite bumps_cons in HN. rewrite Hve.
+      destruct e; cbn [bump_count] in HN; try lia. rewrite ver_bump. rewrite (Z.eqb_sym k0 k) in HN. destruct (k =? k0) eqn:E; [|lia].
+      apply Z.eqb_eq in E. subst k0. lia. }
+    specialize (IH w' Hinv' Hbes HN' side t). specialize (Hso side t). lia.
+  Qed.
+
+  (* "Exactly once" over ALL fault scripts: at either application, for every token, the
+     number of bodies handed over never exceeds the number of arrivals of a first message
+     of a transfer (a message without the Block option of its direction, or block 0) -
+     so duplicated, replayed or re-ordered later blocks, in particular the replayed last
+     block (F15) and the stale request for a later response block, never produce a
+     second delivery. *)
+  Theorem exchange_once_counts es :
+    Forall bump_ok es ->
+    forall side t, handed (model_obs c es) side t <= arrivals (model_obs c es) side t.
+  Proof.
+    intros Hb side t. unfold model_obs.
+    pose proof (run_once (bumps es) es (init c) (winv_init _ (fun k => bumps_nonneg es k)) Hb) as H.
+    specialize (H (fun k => ltac:(cbn; lia)) side t).
+    assert (Hp : pot (init c) side t = 0) by (unfold pot, potE, init, new_ep; cbn; destruct (side =? 1); [|destruct (side =? 0)]; reflexivity).
+    lia.
+  Qed.
+
+  Theorem exchange_once es : Forall bump_ok es -> once_ok (model_obs c es) = true.
+  Proof.
+    intros Hb. unfold once_ok. apply forallb_forall. intros o _. apply forallb_forall. intros d _.
+    apply Z.leb_le. apply exchange_once_counts. exact Hb.
   Qed.
 End System.
